@@ -70,7 +70,7 @@ Qed.
 
 Lemma fz_existsb_app_own : forall fin l, existsb (fz_is_fin fin) (l ++ [JStr fin]) = true.
 Proof.
-  intros. rewrite existsb_app. simpl. rewrite String.eqb_refl. rewrite orb_true_r, orb_true_r. reflexivity.
+  intros. rewrite existsb_app. simpl. rewrite String.eqb_refl. simpl. apply orb_true_r.
 Qed.
 
 (* well-formed bodies, unfolded *)
@@ -115,7 +115,9 @@ Proof.
   destruct Hex as [mk [l [Hm Hf]]]. destruct (Hgen mk l Hm Hf) as [Hfo [Hfins Hmk]].
   unfold fz_block. rewrite Hfo. simpl. rewrite Hfins.
   destruct (existsb (fz_is_fin fin) l) eqn:Epres.
-  - exists (JObj kvs). repeat split; auto. intros; discriminate.
+  - assert (Hfk : fz_fins (JObj kvs) = l) by (rewrite fz_fins_obj; exact Hfins).
+    exists (JObj kvs). rewrite Hfk. split; [reflexivity|]. split; [exact Hwf0|]. split; [reflexivity|].
+    split; [exact Epres|]. split; [reflexivity | intros; discriminate].
   - rewrite Hmk.
     eexists; split; [reflexivity|].
     assert (Hl1 : lookup "metadata" (set "metadata" (JObj (set "finalizers" (JList (l ++ [JStr fin])) mk)) kvs)
@@ -140,9 +142,10 @@ Proof.
   destruct Hmd as [Hn | [mk [Hm Hf]]].
   - (* no metadata *)
     rewrite Hn. simpl. unfold has. rewrite Hn. simpl.
-    eexists; split; [reflexivity|]. split; [simpl; rewrite Hn; reflexivity|].
+    eexists; split; [reflexivity|]. split; [exact Hwf|].
     rewrite fz_fins_obj, Hn. reflexivity.
-  - rewrite Hm. simpl. unfold has at 2. rewrite Hm.
+  - rewrite Hm. simpl.
+    assert (Hhas : has "metadata" kvs = true) by (unfold has; rewrite Hm; reflexivity). rewrite Hhas.
     assert (Hfinal : forall mk2 l', (lookup "finalizers" mk2 = None /\ l' = [] \/ lookup "finalizers" mk2 = Some (JList l')) ->
        exists b', Ok (JObj match mk2 with [] => del "metadata" kvs | _ :: _ => set "metadata" (JObj mk2) kvs end) = Ok b' /\
                   fz_wellformed b' = true /\ fz_fins b' = l').
@@ -277,42 +280,12 @@ Lemma fz_allow_only_if : forall a, In FAllow (o_fns (fz_decide a)) ->
       (a_ctime a = CtNone \/ (a_ctime a = CtSome /\ a_timed_out a = true /\ a_low_empty a = true)))).
 Proof.
   intros a. unfold fz_decide.
-  set (chg0 := match a_chg a with Some hs => fz_chg_prematch hs | None => false end).
-  fold (fz_add a). fold (fz_rem a).
-  destruct (fz_must a) eqn:Em.
-  2:{ intros _. destruct (a_blocked a) eqn:Eb.
-      - left; auto.
-      - (* not blocked: nothing can be appended *)
-        exfalso. revert H. unfold fz_add, fz_rem. rewrite Em, Eb. simpl.
-        match goal with |- context [if ?c then _ else _] => destruct c end; simpl; [tauto|].
-        rewrite !andb_false_r. simpl. tauto. }
-  assert (Er : fz_rem a = false) by (unfold fz_rem; rewrite Em; reflexivity). rewrite Er.
-  destruct (fz_add a) eqn:Ea.
-  - (* a block was appended: the object is not blocked, so no release *)
-    unfold fz_add in Ea. rewrite Em in Ea. simpl in Ea. apply andb_prop in Ea. destruct Ea as [Eb Eo].
-    apply negb_true_iff in Eb. rewrite Eb. rewrite !andb_false_r. simpl.
-    rewrite !andb_false_r. simpl. intros [H|[]]; discriminate.
-  - simpl. rewrite !andb_true_r.
-    destruct (chg0 && negb (match a_ctime a with CtNone => true | _ => false end || chg0 && a_deleted a
-               && true) ) eqn:Edummy; clear Edummy.
-    all: match goal with |- context [if ?c then _ else _] => destruct c eqn:Egate end; simpl; [tauto|].
-    all: rewrite in_app_iff; simpl.
-    all: intros [[]|H]; apply fz_in_opt in H; destruct H as [H _].
-    all: apply andb_prop in H; destruct H as [H Hd]; apply andb_prop in H; destruct H as [H Hb];
-         apply andb_prop in H; destruct H as [Hdel Hon]; apply negb_true_iff in Hdel.
-    all: right; repeat split; auto.
-    all: try (destruct (a_sdelays a ++ (if chg0 then a_cdelays a else [])) eqn:E; [reflexivity | discriminate]).
-    all: try (destruct (a_sdelays a) eqn:E; [reflexivity | simpl in Hd; discriminate]).
-    all: intros Hc; rewrite Hc in *; simpl in *.
-    all: destruct (a_sdelays a) eqn:Es; simpl in Hd; try discriminate.
-    all: destruct (a_cdelays a) eqn:Ec; simpl in Hd; try discriminate.
-    all: rewrite Hdel in Egate; simpl in Egate; rewrite ?orb_false_r in Egate.
-    all: repeat split; auto.
-    all: destruct (a_patch0_empty a) eqn:Ep; simpl in Egate; rewrite ?andb_false_r in Egate; simpl in Egate; try discriminate; auto.
-    all: destruct (a_ctime a) eqn:Ect; simpl in Egate; auto; try discriminate.
-    all: destruct (a_low_empty a) eqn:El; simpl in Egate; try discriminate.
-    all: destruct (a_timed_out a) eqn:Et; simpl in Egate; try discriminate.
-    all: right; auto.
+  destruct a as [sp ch bl on de p0 le ct tmo sd cd]. cbn [a_spawn a_chg a_blocked a_ongoing a_deleted a_patch0_empty
+    a_low_empty a_ctime a_timed_out a_sdelays a_cdelays].
+  remember (fz_must _) as m eqn:Em. clear Em.
+  remember (match ch with Some hs => fz_chg_prematch hs | None => false end) as c0 eqn:Ec0. clear Ec0.
+  destruct m, bl; destruct c0, on, de, p0, le, ct, tmo; cbn; try (intuition discriminate);
+    destruct sd, cd; cbn; intuition discriminate.
 Qed.
 
 (* once everything is finished, the consistent pass on a not-yet-gone, deleting, held object appends the release *)
